@@ -13,6 +13,7 @@ EXPLANATION = (
     "undischarged site is a violation: that is how `saturating_add`→`+`, `ok_or(..)?`→`unwrap()`, `get(0)`→`[0]` or a new division show up. R2 recursion: the only call-graph cycle is the "
     "weight recursion (owned by C11.R6). R3 loops: every natural loop is an iterator `for`/adapter loop or is in the confirmed table with its progress measure."
     " Table verdicts that are evaluated rather than quoted: totals-gate (C01.R9), weights-capped (C05.R1), guarded-swap, priced-pool (every use of the reserves of a built-in pool as a divisor is unreachable when either reserve of that pool is zero - all three pools), guarded-withdraw (0 < total <= recorded liquidity), selected (C15 selection lengths). Imports C20.R3 and the activation table C06.R5."
+    " K8 panic sites (`assert!`) are keyed by the asserted condition. R4: the nesting depth of a MelVM value is bounded or its drop is iterative (today neither: recorded finding D25)."
 )
 NOT_DECIDED = ["aborts from memory exhaustion in general (C11.R5 covers the known materialisation sites)", "termination and panic-freedom of trusted-base code beyond the summarised conditions",
                "the assumptions marked 'assume' in the site table: bounded horizon (heights, epochs, per-covenant coin counts below 2^64; halving index below 128), the work bound of MelPoW "
@@ -26,7 +27,7 @@ ASSUMPTIONS = ["block height stays below TIP-909 + 1.28e8 and u64::MAX; epochs a
 # (regex on the site key `body|kind|what|operands`, verdict, reason)   verdict ∈ inv | assume | finding
 TABLE = [
     (r"^Covenant::to_bytes\|unwrap\|unwrap\|OpCode::encode", "inv", "encode fails only for PushB literals > 255 bytes; covenants arriving as bytes are built by from_bytes (length byte ≤ 255); from_ops with a longer literal is misuse by the embedding program, not attacker input"),
-    (r"^(SealedState::apply_block|UnsealedState::seal|melmint::preseal_melmint|melmint::process_pegging)\|panic\|panic\|(Ge|Gt)\(Iterator::count\(SmtMapping::val_iter\(", "inv", "assert!(pools ≥ 2): create_builtins runs first in every seal (C16.R1/R2) and pools are never deleted (C16.R3)"),
+    (r"^(SealedState::apply_block|UnsealedState::seal|melmint::preseal_melmint|melmint::process_pegging)\|panic\|panic\|(Ge\(Iterator::count\(SmtMapping::val_iter\(.*pools\)\), 2\)|Gt\(Iterator::count\(SmtMapping::val_iter\(.*pools\)\), 1\))$", "inv", "assert!(pools ≥ 2): create_builtins runs first in every seal (C16.R1/R2) and pools are never deleted (C16.R3)"),
     (r"^SealedState::apply_tip_906_for_next_state\|assert\|Overflow\(Add\)\|CoinMapping::coin_count", "assume", "a covenant's coin count stays below 2^64"),
     (r"^SealedState::apply_tip_906_for_next_state\|assert\|Overflow\(Sub\)\|phi\(", "inv", "progress counter starts at tree.count() and is decremented once per iterated entry of the same tree"),
     (r"^SealedState::apply_tip_906_for_next_state\|unwrap\|expect\|stdcode::deserialize\(elem\(Tree::iter", "inv", "before TIP-906 the coin tree holds only CoinDataHeight entries: count entries are written only when the flag handed to insert_coin is set (C20.R1) and that flag is tip_906() of the state at every call site (C20.R3)"),
